@@ -368,10 +368,13 @@ def opt_kwargs(opts):
     import highdicom as hd
     from gen.pixeltransforms import fl
     kw = {}
+    spell = opts.get('spell', 0)
     if 'voi_output_range' in opts:
-        kw['voi_output_range'] = tuple(fl(v) for v in opts['voi_output_range'])
+        rng_ = tuple(fl(v) for v in opts['voi_output_range'])
+        kw['voi_output_range'] = rng_ if spell == 0 else list(rng_) if spell == 1 else np.array(rng_)
     if 'dtype' in opts:
-        kw['dtype'] = np.dtype(opts['dtype'])
+        # every accepted spelling: numpy dtype, scalar type, name
+        kw['dtype'] = np.dtype(opts['dtype']) if spell == 0 else np.dtype(opts['dtype']).type if spell == 1 else str(opts['dtype'])
     if opts.get('voi_user') is not None:
         u = opts['voi_user']
         if u['kind'] == 'lut':
@@ -661,6 +664,15 @@ def gen_pipeline_case(r, idx):
                     row.append(r.randint(imin, imax))
             fr.append(row)
         frames.append(fr)
+    if T.get('rwvm'):
+        # real-world maps (LUTs especially) cover a short range: keep most frames inside the range of one of the maps
+        # that apply to them, so that reads (and get_frames over differing per-frame maps) succeed
+        for f in range(n):
+            maps = discover(T, 'rwvm', f)
+            if maps and r.random() < 0.75:
+                mp = r.choice(maps)
+                a, z = int(mp['first']), int(mp['last'])
+                frames[f] = [[max(imin, min(imax, r.randint(a, z))) for _ in row] for row in frames[f]]
     P['frames'] = frames
     P['T'] = T
     return P, opts
@@ -695,7 +707,7 @@ def gen_flags(r, P):
 
 def gen_opts(r, P, flags):
     T = P['T']
-    opts = {}
+    opts = {'spell': r.choice([0, 0, 1, 2])}
     odd = r.choice([1, 1, 3, 5, 7])
     j = r.randint(1, 8)
     rng = Fraction(odd * j) / Fraction(2) ** r.randint(0, 3)
@@ -740,6 +752,29 @@ def small_dyadic(q, bits=34):
     q = Fraction(q)
     d = q.denominator
     return d & (d - 1) == 0 and abs(q.numerator).bit_length() <= bits and d.bit_length() <= 40
+
+
+LAYOUTS = ['C', 'F', 'transposed', 'strided', 'negative-stride', 'read-only']
+
+
+def with_layout(arr, kind):
+    """an array equal to `arr` with the given memory layout (the standalone `apply` functions take any ndarray)"""
+    arr = np.ascontiguousarray(arr)
+    if kind == 'F':
+        return np.asfortranarray(arr)
+    if kind == 'transposed':
+        return np.ascontiguousarray(arr.T).T
+    if kind == 'strided':
+        big = np.zeros(tuple(2 * d for d in arr.shape), dtype=arr.dtype)
+        big[tuple(slice(None, None, 2) for _ in arr.shape)] = arr
+        return big[tuple(slice(None, None, 2) for _ in arr.shape)]
+    if kind == 'negative-stride':
+        return np.ascontiguousarray(arr[..., ::-1])[..., ::-1]
+    if kind == 'read-only':
+        out = arr.copy()
+        out.flags.writeable = False
+        return out
+    return arr
 
 
 # ============================================================================ streams
@@ -805,13 +840,20 @@ def stream_pipeline(ctx, reqs, pending):
             continue
         im, ds = st[1]
         n = len(P['frames'])
+        snap = call(im.to_json)
+        first = None
+        touch_cache = r.random() < 0.3
         for rep in range(3):
             flags = gen_flags(r, P)
             opts = gen_opts(r, P, flags)
             kw = dict(flag_kwargs(flags), **opt_kwargs(opts))
+            if rep == 1 and touch_cache:
+                call(lambda: im.pixel_array)          # later reads go through the cached pixel array
             for f in range(n):
                 case = {'stream': 'pipe', 'idx': idx, 'rep': rep, 'frame': f, 'flags': flags, 'opts': opts, 'P': P}
-                res = call(im.get_frame, f + 1, **kw)
+                res = call(im.get_frame, (f + 1) if opts.get('spell') != 2 else np.int64(f + 1), **kw)
+                if first is None:
+                    first = (f, kw, res, case)
                 ref = check_call(ctx, case, P, f, flags, opts, res, 'get_frame')
                 mp = model_params(P, f, opts) if ref[0] in ('ok', 'err') and ref[1] != 'selector' else None
                 if mp is not None and 'constant' not in str(ref[1]):
@@ -840,6 +882,20 @@ def stream_pipeline(ctx, reqs, pending):
                                     'want': np.stack([s[1] for s in singles]).tolist()}, site='get_frames')
             elif res[0] == 'ok':
                 ctx.fail(case, {'why': 'get_frames succeeded although a single get_frame is refused'}, site='get_frames')
+        # several reads on ONE object: the very first read again, after reads with other options, refused calls, batch reads
+        # (and possibly the pixel-array cache): same answer; and no read has changed the image
+        if first is not None:
+            f0, kw0, res0, case0 = first
+            again = call(im.get_frame, f0 + 1, **kw0)
+            same = again[0] == res0[0] and (again[1] == res0[1] if again[0] != 'ok' else
+                                            np.array_equal(np.asarray(again[1]), np.asarray(res0[1]), equal_nan=True))
+            ctx.case(pipeline='repeat', repeat_after_cache=touch_cache)
+            if not same:
+                ctx.fail(dict(case0, repeated=True), {'why': 'the same read repeated after other reads gives another answer',
+                                                      'first': str(res0[1])[:200], 'again': str(again[1])[:200]}, site='get_frame/repeat')
+            snap2 = call(im.to_json)
+            if snap[0] == 'ok' and (snap2[0] != 'ok' or snap2[1] != snap[1]):
+                ctx.fail(dict(case0, repeated=True), {'why': 'reading frames changed the image dataset'}, site='get_frame/mutates-image')
 
 
 def settle(ctx, reqs, pending):
@@ -1232,10 +1288,14 @@ def stream_lut(ctx, reqs, pending):
             xs = [x for x in probes if ii.min <= x <= ii.max]
             if not xs:
                 continue
-            a = np.array(xs, dtype=adt)
+            lay = LAYOUTS[(idx + len(xs)) % len(LAYOUTS)]
+            a = with_layout(np.array(xs, dtype=adt), lay)
+            a_before = a.tobytes()
             got = call(lut.apply, a)
+            if a.tobytes() != a_before:
+                ctx.fail(dict(case, array_dtype=adt), {'why': 'LUT.apply modified its input array', 'layout': lay}, site='apply/mutates-input')
             want = arr[np.clip(np.array(xs, dtype=np.int64) - first, 0, n - 1)]
-            ctx.case(lut_apply=adt)
+            ctx.case(lut_apply=adt, array_layout=lay)
             c2 = dict(case, xs=xs, array_dtype=adt)
             if got[0] != 'ok':
                 ctx.fail(c2, {'why': 'LUT.apply raised', 'err': got[2]}, site='LUT.apply')
@@ -1311,6 +1371,10 @@ def stream_palette(ctx, reqs, pending):
         P = {'bits': 16, 'photometric': 'PALETTE COLOR', 'frames': [[xs]],
              'T': {'palette': {'first': first, 'bits': bits, 'data': table.tolist()}}}
         ds = make_image(P)
+        if idx % 2:
+            import pydicom
+            from gen.images import to_bytes
+            ds = pydicom.dcmread(io.BytesIO(to_bytes(ds)))          # after a bytes round trip (padding byte, VR OW)
         ex = call(hd.PaletteColorLUTTransformation.extract_from_dataset, ds)
         if ex[0] != 'ok':
             ctx.fail(case, {'why': 'extract_from_dataset refused image palette attributes', 'err': ex[2]},
@@ -1435,7 +1499,7 @@ def stream_placement(ctx, reqs, pending):
     vals = {'image': 1, 'shared': 2, 'perframe': None}
     n = 3
     frames = [[[10 * f + k for k in range(3)]] for f in range(n)]
-    for kind in ('rescale', 'window', 'rwvm'):
+    for kind in ('rescale', 'window', 'rwvm', 'rwvmlut'):
         for subset in itertools.product((False, True), repeat=3):
             places = [p for p, on in zip(('image', 'shared', 'perframe'), subset) if on]
             T = {}
@@ -1446,11 +1510,15 @@ def stream_placement(ctx, reqs, pending):
                     ent.append({'place': p_, 'vals': [[str(i), str(100 * i)] for i in ids]})
                 elif kind == 'window':
                     ent.append({'place': p_, 'vals': [{'c': [str(20 * i)], 'w': [str(64 * i)], 'fn': 'LINEAR_EXACT'} for i in ids]})
-                else:
+                elif kind == 'rwvm':
                     ent.append({'place': p_, 'vals': [[{'label': 'A', 'unit': UNITS[0], 'first': 0, 'last': 255, 'slope': str(i), 'intercept': str(100 * i)}]
                                                       for i in ids]})
+                else:       # a table per placement / frame, all different
+                    ent.append({'place': p_, 'vals': [[{'label': 'A', 'unit': UNITS[0], 'first': 0, 'last': 31,
+                                                        'lut': [fs(Fraction(1000 * i + k, 4)) for k in range(32)]}] for i in ids]})
+            tkey = 'rwvm' if kind == 'rwvmlut' else kind
             if ent:
-                T[kind] = ent
+                T[tkey] = ent
             P = {'bits': 8, 'photometric': 'MONOCHROME2', 'frames': frames, 'T': T}
             st = call(build, P)
             if st[0] != 'ok':
@@ -1475,10 +1543,10 @@ def stream_placement(ctx, reqs, pending):
                     for cand in [None, 1, 2] + [3 + g for g in range(n)]:
                         Tc = {}
                         if cand is not None:
-                            Tc[kind] = [{'place': 'image', 'vals': [next(v for e in ent for i, v in zip(([vals[e['place']]] if e['place'] != 'perframe'
+                            Tc[tkey] = [{'place': 'image', 'vals': [next(v for e in ent for i, v in zip(([vals[e['place']]] if e['place'] != 'perframe'
                                                                                                 else [3 + g for g in range(n)]), e['vals']) if i == cand)]}] \
                                 if any(cand in ([vals[e['place']]] if e['place'] != 'perframe' else [3 + g for g in range(n)]) for e in ent) else None
-                            if Tc[kind] is None:
+                            if Tc[tkey] is None:
                                 continue
                         rf = ref_frame(dict(P, T=Tc), f, flags, {})
                         if rf[0] == 'ok' and compare_values(res[1], rf[1], rf[2], 'float64') is None:
@@ -1507,7 +1575,9 @@ def stream_objects(ctx, reqs, pending):
         adt = r.choice(['int16', 'int32', 'int8']) if signed else r.choice(['uint16', 'uint8', 'uint16'])
         ii = np.iinfo(adt)
         xs = [max(ii.min, min(ii.max, r.randint(-40, 340))) for _ in range(6)] + [ii.min, ii.max]
-        arr = np.array(xs, dtype=adt).reshape(2, 4)
+        lay = r.choice(LAYOUTS)
+        arr = with_layout(np.array(xs, dtype=adt).reshape(2, 4), lay)
+        arr_before = arr.tobytes()
         P = {'bits': ii.bits, 'signed': signed, 'bits_stored': ii.bits, 'photometric': 'MONOCHROME2', 'frames': [arr.tolist()], 'T': {}}
         case = {'stream': 'obj', 'idx': idx, 'kind': kind, 'array_dtype': adt, 'xs': arr.tolist()}
         opts = {}
@@ -1528,8 +1598,9 @@ def stream_objects(ctx, reqs, pending):
                 sel = r.randint(-nwin, nwin - 1)
                 opts['voi_selector'] = sel
                 P['T']['window'] = [{'place': 'image', 'vals': [{'c': cs, 'w': ws, 'fn': fn}]}]
+                fn_spelled = fn if (fn is None or r.random() < 0.5) else hd.VOILUTFunctionValues(fn)      # str or enum member
                 tr = call(hd.VOILUTTransformation, [fl(c) for c in cs] if nwin > 1 else fl(cs[0]),
-                          [fl(w) for w in ws] if nwin > 1 else fl(ws[0]), None, fn)
+                          [fl(w) for w in ws] if nwin > 1 else fl(ws[0]), None, fn_spelled)
             else:
                 lut = gen_lut(r, r.choice([8, 16]), (0, 200), pow2_range=r.random() < 0.7)
                 sel = 0
@@ -1611,7 +1682,8 @@ def stream_objects(ctx, reqs, pending):
                 tr = call(hd.pm.RealWorldValueMapping, 'A', 'expl', Code(*UNITS[0]), (first, last), None, None, [fl(v) for v in m['lut']])
             P['T']['rwvm'] = [{'place': 'image', 'vals': [[m]]}]
             if r.random() < 0.75:       # mostly inside the mapped range
-                arr = np.clip(arr.astype(np.int64), m['first'], m['last']).astype(adt)
+                arr = with_layout(np.clip(arr.astype(np.int64), m['first'], m['last']).astype(adt), lay)
+                arr_before = arr.tobytes()
                 P['frames'] = [arr.tolist()]
                 case['xs'] = arr.tolist()
             if tr[0] != 'ok':
@@ -1621,7 +1693,9 @@ def stream_objects(ctx, reqs, pending):
             ref = check_call(ctx, case, P, 0, flags, opts, res, 'RealWorldValueMapping.apply')
         kinds = '+'.join(ref[2]['kind']) if ref[0] == 'ok' else ref[0] + ':' + str(ref[1])[:20]
         ctx.case(nontrivial_key=('obj', kind, kinds, adt, idx) if ref[0] == 'ok' else None, object_kind=kind, object_pipeline=kinds,
-                 object_outcome=res[0] if res[0] == 'ok' else res[1])
+                 object_outcome=res[0] if res[0] == 'ok' else res[1], array_layout=lay)
+        if arr.tobytes() != arr_before:
+            ctx.fail(case, {'why': 'apply() modified its input array', 'layout': lay}, site='apply/mutates-input')
         mp = model_params(P, 0, opts) if ref[0] in ('ok', 'err') else None
         if mp is not None and 'constant' not in str(ref[1]):
             reqs.append(('pipeline', {'flags': [flags[k] for k in ('rw', 'mod', 'voi', 'pal', 'icc')], 'pres': True, 'ctype': MONO,
